@@ -140,12 +140,26 @@ func checkC29(r *core.Run, p *core.Program) {
 						}
 						return true
 					})
-					// or the named error result itself (returned by a bare return / at function end)
+					// or the named error result itself, when nothing but a bare return follows the assignment
 					if !handled {
 						sig := f.Obj.Type().(*types.Signature)
+						isNamed := false
 						for i := 0; i < sig.Results().Len(); i++ {
 							if sig.Results().At(i) == errObj {
-								handled = true
+								isNamed = true
+							}
+						}
+						if isNamed {
+							body := f.Decl.Body.List
+							for i, st := range body {
+								if st == ast.Stmt(par) {
+									rest := body[i+1:]
+									if len(rest) == 0 {
+										handled = true
+									} else if ret, ok := rest[0].(*ast.ReturnStmt); ok && len(ret.Results) == 0 {
+										handled = true
+									}
+								}
 							}
 						}
 					}
@@ -157,6 +171,15 @@ func checkC29(r *core.Run, p *core.Program) {
 		}
 	}
 	r.Floor("C29.no-dropped-error", "I/O and stream-decoder call sites", nSites, 12)
+
+	// the normalising reader adapter must never lose an error that arrived together with data
+	for _, site := range ioReadSites(p, "cbe") {
+		if site.f.Decl.Name.Name == "Read" {
+			if rn := recvNamed(site.f.Obj); rn != nil && fieldOf(site.f.Pkg.TypesInfo, site.recv) != nil {
+				checkAdapterContract(r, a, site.f, rn.Obj(), "C29.no-dropped-error")
+			}
+		}
+	}
 
 	// ---- boundary
 	m := newBoundaryModel(p, a)
